@@ -23,6 +23,17 @@ fn classes(vals: &[&Val]) -> String {
     c.join("/")
 }
 
+/// class used in signatures: a listed root cause when the pair exhibits it, else the kinds
+fn root_cause_class(a: &Val, b: &Val) -> String {
+    if gv::differ_in_bool_vs_number(a, b) {
+        "bool_vs_number".to_string()
+    } else if cfg!(feature = "alt") && gv::differ_in_map_order(a, b) {
+        "map_insertion_order".to_string()
+    } else {
+        classes(&[a, b])
+    }
+}
+
 // ------------------------------------------------------------------ laws
 
 #[derive(Clone, Debug, Serialize, Deserialize)]
@@ -79,11 +90,7 @@ impl Part for Laws {
                     continue;
                 }
                 let (x, y) = (&v[i], &v[j]);
-                let c = if cfg!(feature = "alt") && gv::differ_in_map_order(vals[i], vals[j]) {
-                    "map_insertion_order".to_string()
-                } else {
-                    classes(&[vals[i], vals[j]])
-                };
+                let c = root_cause_class(vals[i], vals[j]);
                 let xy = x.cmp(y);
                 let yx = y.cmp(x);
                 if xy != yx.reverse() {
@@ -185,11 +192,7 @@ impl Part for TemplateAgreement {
         }
         let env = Environment::new();
         let (a, b) = (p.a.to_value(), p.b.to_value());
-        let c = if cfg!(feature = "alt") && gv::differ_in_map_order(&p.a, &p.b) {
-            "map_insertion_order".to_string()
-        } else {
-            classes(&[&p.a, &p.b])
-        };
+        let c = root_cause_class(&p.a, &p.b);
         let eq = a == b;
         let ord = a.cmp(&b);
         let want_bool = |src: &str, want: bool, law: &str, out: &mut Verdict| match eval(&env, src, &a, &b) {
@@ -357,7 +360,13 @@ impl Part for Filters {
         if kinds.len() > 1 {
             out.labels.push("mixed_kinds");
         }
-        let class = kinds.iter().cloned().collect::<Vec<_>>().join("/");
+        let deep_mix = (0..n).any(|i| (0..i).any(|j| gv::differ_in_bool_vs_number(&c.keys[i], &c.keys[j])));
+        let class = if deep_mix || kinds.contains("bool") && (kinds.contains("int") || kinds.contains("float")) {
+            // equal-but-ordered-apart bool/number keys are a listed finding
+            "bool_vs_number".to_string()
+        } else {
+            kinds.iter().cloned().collect::<Vec<_>>().join("/")
+        };
         let ctx = |extra: Vec<(&'static str, Value)>| {
             let mut pairs = vec![
                 ("xs", input.clone()),
